@@ -796,6 +796,32 @@ var stormers = []Tmpl{
 	{Src: `<% let f = fn(n) { if (n > 12) { return nosuch } return f(n + 1) } %><%= f(0) %>`}, // fails 12 calls deep
 }
 
+// hostile neighbours: templates the parser refuses in ways that leave it in an unusual state (code nested deeper than
+// any limit, in every nesting construct; input that ends inside a string, a comment, a tag, a block; 200 errors in a
+// row). Parsing one of them must leave nothing behind that the NEXT parse - of another text - notices.
+func hostileNeighbours() []Tmpl {
+	deep := 10050
+	var out []Tmpl
+	add := func(src string) { out = append(out, Tmpl{Src: src}) }
+	add("<%= " + strings.Repeat("(", deep) + "1" + strings.Repeat(")", deep) + " %>")
+	add("<%= " + strings.Repeat("[", deep) + "1" + strings.Repeat("]", deep) + " %>")
+	add("<%= " + strings.Repeat("!", deep) + "true %>")
+	add("<%= " + strings.Repeat("f(", deep) + "1" + strings.Repeat(")", deep) + " %>")
+	add("<%= 1" + strings.Repeat(" + (1", deep) + strings.Repeat(")", deep) + " %>")
+	add(strings.Repeat("<% if (true) { %>", deep) + "x" + strings.Repeat("<% } %>", deep))
+	add(strings.Repeat("<% for (x) in [1] { %>", deep) + "x" + strings.Repeat("<% } %>", deep))
+	add("<% let f = " + strings.Repeat("fn() { return ", deep) + "1" + strings.Repeat(" }", deep) + " %>")
+	add("<%= " + strings.Repeat("{a: ", deep) + "1" + strings.Repeat("}", deep) + " %>")
+	add("<%= " + strings.Repeat("(", deep)) // and the input ends there
+	add(`a<%= "never closed`)
+	add("a<%# never closed")
+	add("a<%= if (true) { %>never closed")
+	add("a<%= for (x) in [1, 2] { %>never closed<% break ")
+	add(strings.Repeat("<%= ) %>", 200))
+	add("<% let f = fn() { %>never closed")
+	return out
+}
+
 var canary = Tmpl{Src: `<%= partial("n1") %>|<% let f = fn(n) { if (n > 0) { return f(n - 1) + 1 } return 0 } %><%= f(8) %>|<%= blk() { %>in<%= i1 %><% } %>|<%= for (x) in [[1, 2], [3]] { %><%= x %><% } %>|<%= contentOf("d") { %>dflt<% } %>`,
 	Partials: map[string]string{"n1": `a<%= partial("n2") %>`, "n2": `b<%= partial("n3") %>`, "n3": `c<%= i1 %>`}}
 
@@ -934,7 +960,7 @@ func numbered(t Tmpl, n int64) Tmpl {
 	return out
 }
 
-const rule = "templates: (1) random programs over all constructs (shared generator; some with planted faults so that errors must be deterministic too) spliced with hash literals of 3-5 entries whose values call a recording helper and with duplicate keys; (2) SHAPES written as text over richer data (maps, structs with a nested pointer, a method with per-instance state, a recording method, a value-receiver method, typed slices, a time, an iterator, a helper that counts per context): hash literals of 0..12 entries over a 6-key pool (identifier and string keys, duplicate keys, values that record / count / are literals only / nest) used in place, through let, in a loop body and a function body entered several times, as data of a partial and of contentOf, nested in arrays and hashes, encoded whole, and assigned to after they were made; array literals of 0..6 elements likewise; 1-7 pieces out of 71 (sometimes followed by one of 42 pieces that fail: unknown names, missing members, bad indexes and arguments whose printed form holds maps and pointers, failing and panicking helpers) over the rich data (member paths, methods, built-in helpers, iterators, names read before they are made inside a loop body / function body / helper block / partial / stored block that is entered twice, for over a Go map only where the order cannot show: no entry, one entry, a body blind to the entry); (3) any of these with one tag the parser rejects planted in front of one of its tags (18 rejected tags); (4) TWINS: a template of the history again with a minimal difference (white space before/after, one digit, one letter's case, two bytes swapped, last byte dropped, first byte doubled); plus (E) each of the 71 + 42 pieces on its own, the 277 templates harvested from the repository's tests, 9 hash-literal snippets, 21 boundary templates (empty, a lone tag opener or closer, escaped opener, 400 tags, 100 kB of text, 40 nested ifs, a 200-entry hash and array literal) and a partial that includes itself (overlapping executions of one cached template object). Histories: 1-3 templates x up to 14 interleaved actions from 14 routes {Exec again on the parsed template, NewTemplate+Exec, Clone+Exec, Render with the cache off, Render with the cache on and cold (text made unique by a leading comment tag), Render cache-on warm, Parse through the cache then Exec, Exec twice on the cached object, BuffaloRenderer cache off / on, RenderR, a zero-value Template{Input} that parses in its first Exec + second Exec + Clone, Parse() again then Exec, Clone of a Clone then the original}; a template the parser rejects goes through the same routes (Exec / Clone on the Template returned next to the error; the text of the error value held from the first parse is read again at every step); context data rebuilt fresh-but-equal for every execution. (E) every template x all 14 actions x 2 rounds; (E) long runs: one route repeated 40 times (Exec, Clone, warm cache, cached object) for the snippets, every 8th harvested template and fixed templates with white-space-only text between tags; (E) error storms: 14 templates that fail or forgive a failure (partial feeder / render / parse error inside a partial and its layout, a forgiven unknown function, a helper that fails or panics, a failure in a helper block, in a loop, a missing block, a parse error, a failure 12 calls deep in a recursion) executed 1100 times in a row on three routes between executions of a healthy template (nested partials, recursion, helper block, nested arrays, default block) that then goes through all routes,; (E) name leaks: [user, definer, user, definer, user] for 10 templates that only USE a name (let variable, function, contentFor block, partial, loop variable, names made inside a partial; or that make it for themselves) x definers of these names (also as a member name after an index or a call) x every route for the definer (quick: 5 routes) x every route for the user, the names numbered afresh for every history; (R) random histories over (1), and over (1)-(4) mixed. Oracle: every (output, error text with addresses normalised, recorded helper invocation order) equals the first result for that template; the deep structural hash of the parsed program (all fields incl. token lines, pointer topology, H1 accessor) and the Input are identical after every Exec, also for the cached object around a warm render. Excluded by construction: for over Go maps / multi-entry hash literals where the order can show (the licensed variation); printing pointers (addresses are not data). Non-trivial = histories of >= 3 actions; distinct by (templates, actions)."
+const rule = "templates: (1) random programs over all constructs (shared generator; some with planted faults so that errors must be deterministic too) spliced with hash literals of 3-5 entries whose values call a recording helper and with duplicate keys; (2) SHAPES written as text over richer data (maps, structs with a nested pointer, a method with per-instance state, a recording method, a value-receiver method, typed slices, a time, an iterator, a helper that counts per context): hash literals of 0..12 entries over a 6-key pool (identifier and string keys, duplicate keys, values that record / count / are literals only / nest) used in place, through let, in a loop body and a function body entered several times, as data of a partial and of contentOf, nested in arrays and hashes, encoded whole, and assigned to after they were made; array literals of 0..6 elements likewise; 1-7 pieces out of 71 (sometimes followed by one of 42 pieces that fail: unknown names, missing members, bad indexes and arguments whose printed form holds maps and pointers, failing and panicking helpers) over the rich data (member paths, methods, built-in helpers, iterators, names read before they are made inside a loop body / function body / helper block / partial / stored block that is entered twice, for over a Go map only where the order cannot show: no entry, one entry, a body blind to the entry); (3) any of these with one tag the parser rejects planted in front of one of its tags (18 rejected tags); (4) TWINS: a template of the history again with a minimal difference (white space before/after, one digit, one letter's case, two bytes swapped, last byte dropped, first byte doubled); plus (E) each of the 71 + 42 pieces on its own, the 277 templates harvested from the repository's tests, 9 hash-literal snippets, 21 boundary templates (empty, a lone tag opener or closer, escaped opener, 400 tags, 100 kB of text, 40 nested ifs, a 200-entry hash and array literal) and a partial that includes itself (overlapping executions of one cached template object). Histories: 1-3 templates x up to 14 interleaved actions from 14 routes {Exec again on the parsed template, NewTemplate+Exec, Clone+Exec, Render with the cache off, Render with the cache on and cold (text made unique by a leading comment tag), Render cache-on warm, Parse through the cache then Exec, Exec twice on the cached object, BuffaloRenderer cache off / on, RenderR, a zero-value Template{Input} that parses in its first Exec + second Exec + Clone, Parse() again then Exec, Clone of a Clone then the original}; a template the parser rejects goes through the same routes (Exec / Clone on the Template returned next to the error; the text of the error value held from the first parse is read again at every step); context data rebuilt fresh-but-equal for every execution. (E) every template x all 14 actions x 2 rounds; (E) long runs: one route repeated 40 times (Exec, Clone, warm cache, cached object) for the snippets, every 8th harvested template and fixed templates with white-space-only text between tags; (E) error storms: 14 templates that fail or forgive a failure (partial feeder / render / parse error inside a partial and its layout, a forgiven unknown function, a helper that fails or panics, a failure in a helper block, in a loop, a missing block, a parse error, a failure 12 calls deep in a recursion) executed 1100 times in a row on three routes between executions of a healthy template (nested partials, recursion, helper block, nested arrays, default block) that then goes through all routes; (E) hostile neighbours: 16 templates the parser refuses in an unusual state (code nested 10050 levels deep in each of 9 nesting constructs - the parser's nesting limit -, input that ends inside a string / comment / tag / block / function literal, 200 syntax errors in a row) parsed through every route (quick: 5) between executions of 4 healthy templates, which then go through all 14 routes and are parsed cold again; (E) name leaks: [user, definer, user, definer, user] for 10 templates that only USE a name (let variable, function, contentFor block, partial, loop variable, names made inside a partial; or that make it for themselves) x definers of these names (also as a member name after an index or a call) x every route for the definer (quick: 5 routes) x every route for the user, the names numbered afresh for every history; (R) random histories over (1), and over (1)-(4) mixed. Oracle: every (output, error text with addresses normalised, recorded helper invocation order) equals the first result for that template; the deep structural hash of the parsed program (all fields incl. token lines, pointer topology, H1 accessor) and the Input are identical after every Exec, also for the cached object around a warm render. Excluded by construction: for over Go maps / multi-entry hash literals where the order can show (the licensed variation); printing pointers (addresses are not data). Non-trivial = histories of >= 3 actions; distinct by (templates, actions)."
 
 func setup(t *testing.T) *vk.Run {
 	r := vk.Start(t, "C13", rule,
@@ -1059,6 +1085,37 @@ func TestProp(t *testing.T) {
 		}
 	}
 	r.Subspace("error storms: failing templates x {Render, cached object, Exec again} x 1100 repetitions around a healthy template", n, true)
+
+	// E: hostile neighbours: [healthy, hostile, healthy through every route] for every route of the hostile one
+	n = 0
+	cellH := int64(0)
+	healthy := []Tmpl{canary, {Src: `a<%= i1 %>b<%= for (x) in [1, 2] { %>[<%= x %>]<% } %><% let f = fn(y) { return y + 1 } %><%= f(2) %>`}, {Src: "<p>seeded-demo mark</p>"},
+		{Src: `<%= if (t) { %>(<%= if (!f) { %>in<% } else { %>no<% } %>)<% } %><%= {a: 1}["a"] %><%= [[1, 2], [3]][0][1] %>`}}
+	for ni, hn := range hostileNeighbours() {
+		slow := ni >= 5 && ni <= 7 // 10050 nested BLOCKS take seconds to refuse
+		for hi, ht := range healthy {
+			for rh := range actionNames {
+				if r.Quick() && (rh != aNew && rh != aRender && rh != aCold && rh != aLazy && rh != aParseExec || hi > 1) {
+					continue
+				}
+				if slow && (r.Quick() && (rh != aNew || hi > 0) || rh != aNew && rh != aRender && rh != aCold && rh != aLazy) {
+					continue
+				}
+				cellH++
+				if !r.Mine(cellH) {
+					continue
+				}
+				acts := [][2]int{{0, aRender}, {1, rh}}
+				for a := range actionNames {
+					acts = append(acts, [2]int{0, a})
+				}
+				acts = append(acts, [2]int{1, rh}, [2]int{0, aCold}, [2]int{0, aWarm}, [2]int{0, aNew})
+				r.Check(runCase(r, Case{Templates: []Tmpl{ht, hn}, Actions: acts}, "hostile-neighbour"))
+				n++
+			}
+		}
+	}
+	r.Subspace("hostile neighbours: 16 templates the parser refuses in an unusual state (code nested 10050 deep in each of 9 nesting constructs, input ending inside a string / comment / tag / block / function, 200 errors in a row) x route, between executions of 4 healthy templates that then go through all routes", n, true)
 
 	// E: a name made by one template must not reach another template, whatever routes the two take
 	n = 0
